@@ -142,7 +142,12 @@ def join_tokens(toks, style):
             s += t
         return s
     if style == "lines":
-        return "\n\t".join(toks) + "\r\n"
+        # "whitespace is ignored": every kind of separator, alone between two tokens (a lone carriage return too)
+        seps = ["\n\t", "\r", "\t", "\r\n", "\n", "\r\r", " \r"]
+        s = ""
+        for i, t in enumerate(toks):
+            s += t + (seps[i % len(seps)] if i + 1 < len(toks) else "")
+        return s + "\r\n"
     return " ".join(toks)
 
 
